@@ -44,6 +44,33 @@ fire(P, "canonicalize-phaseshift-mod-pi",
      [(OP2, _FOUR_PI_HEAD,
             '    elif op_name is not None and op_name in ("ControlledPhaseShift",):\n        mod_val = np.pi\n' + _FOUR_PI_HEAD)],
      "R-C05-period", "ControlledPhaseShift.phi")
+# the same canonicalisation refactored into a module-level table + lookup (no if-chain at all)
+_COMMENT = ("        # Rot(θ) ∈ SU(2) double-covers SO(3) via center {-I, I}, so θ ↦ θ+2π is global phase -I;\n"
+            "        # in CRot, -I becomes a relative phase on |1⟩, breaking 2π periodicity to 4π. The same\n"
+            "        # happens when the hash of an uncontrolled rotation is reused inside a wrapper such as\n"
+            "        # ``ctrl`` (and the raw state differs by the sign), so the half-angle gates use 4π as well.\n")
+_IF_CHAIN = _TWO_PI + _FOUR_PI_TUPLE + _COMMENT + _FOUR_PI_MOD
+_DEF = "def _canonicalize_dynamic(d, op_name=None) -> Hashable:\n"
+
+
+def _table_refactor(two_pi_names, four_pi_names, lookup="    mod_val = _ROTATION_PERIODS.get(op_name)"):
+    table = ("_ROTATION_PERIODS = dict.fromkeys(\n    (" + ", ".join(repr(n) for n in two_pi_names) + "),\n    2 * np.pi,\n) | dict.fromkeys(("
+             + ", ".join(repr(n) for n in four_pi_names) + ",), 4 * np.pi)\n\n\n")
+    return [(OP2, _DEF, table + _DEF), (OP2, _IF_CHAIN, lookup)]
+
+
+fire(P, "canonicalize-table-refactor-crx-under-2pi",
+     _table_refactor(("PhaseShift", "U1", "U2", "CRX", "CRY", "CRZ", "CRot"), ("RX", "RY", "RZ", "Rot", "U3")),
+     "R-C05-period", "CRX.phi")
+fire(P, "canonicalize-table-refactor-subscript-lookup-rz-under-2pi",
+     _table_refactor(("PhaseShift", "U1", "U2", "RZ"), ("RX", "RY", "Rot", "U3", "CRX", "CRY", "CRZ", "CRot"),
+                     lookup="    mod_val = _ROTATION_PERIODS[op_name] if op_name in _ROTATION_PERIODS else None"),
+     "R-C05-period", "RZ.phi")
+fire(P, "canonicalize-equality-chain-ry-under-2pi",
+     [(OP2, _IF_CHAIN, '    if op_name == "RY" or op_name in {"PhaseShift": 0, "U1": 0, "U2": 0}:\n        mod_val = np.pi * 2\n'
+                       '    elif not (op_name is None or op_name not in ["RX", "RZ", "Rot", "U3", "CRX", "CRY", "CRZ", "CRot"]):\n'
+                       "        mod_val = 4 * np.pi\n    else:\n        mod_val = None")],
+     "R-C05-period", "RY.phi")
 fire(P, "controlled-hash-base-mod-2pi",
      (CTRL, "math.round(math.real(d) % (4 * np.pi), 10)", "math.round(math.real(d) % (2 * np.pi), 10)"),
      "R-C05-period", "Controlled.__hash__")
@@ -106,3 +133,13 @@ silent(P, "vnentropy-hash-fields-reordered",
              "        base = self.log_base\n        return hash((base, tuple(self.wires.tolist()), self.__class__.__name__))")])
 silent(P, "exp-hash-reads-scalar-directly",
        [(EXP, "hash((str(self.name), hash(self.base), str(self.coeff)))", "hash((str(self.name), str(self.scalar), hash(self.base)))")])
+silent(P, "canonicalize-table-refactor-correct-moduli",
+       _table_refactor(("PhaseShift", "U1", "U2"), ("RX", "RY", "RZ", "Rot", "U3", "CRX", "CRY", "CRZ", "CRot")))
+silent(P, "canonicalize-table-refactor-dict-display-and-subscript",
+       [(OP2, _DEF, '_TWO = {"PhaseShift": 2 * np.pi, "U1": 2 * np.pi, "U2": np.pi * 2}\n'
+                    '_ROTATION_PERIODS = {**_TWO, **dict.fromkeys(["RX", "RY", "RZ", "Rot", "U3", "CRX", "CRY", "CRZ", "CRot"], 8 * np.pi / 2)}\n\n\n' + _DEF),
+        (OP2, _IF_CHAIN, "    mod_val = _ROTATION_PERIODS[op_name] if op_name in _ROTATION_PERIODS else None")])
+silent(P, "canonicalize-equality-chain-correct-moduli",
+       [(OP2, _IF_CHAIN, '    if op_name in {"PhaseShift": 0, "U1": 0, "U2": 0}:\n        mod_val = np.pi * 2\n'
+                         '    elif not (op_name is None or op_name not in ["RX", "RY", "RZ", "Rot", "U3", "CRX", "CRY", "CRZ", "CRot"]):\n'
+                         "        mod_val = 4 * np.pi\n    else:\n        mod_val = None")])
